@@ -19,6 +19,8 @@ THEOREMS = [
     "Nix.C19.C19_epoch_is_source",
     "Nix.C19.C19_str_to_time_follows_source",
     "Nix.C19.C19_roundtrip_source_formats",
+    "Nix.C19.C19_no_unguarded_stamp",
+    "Nix.C19.C19_unguarded_would_stamp",
     "Nix.C19.C19_created_fixed",
     "Nix.C19.C19_monotone",
     "Nix.C19.C19_monotone_from_open",
